@@ -130,6 +130,8 @@ class ExprGen:
         if depth <= 0 or r.random() < 0.25:
             return self.atom()
         x = r.random()
+        if self.allow_random and r.random() < 0.08:
+            return ("bin", r.choice(["&", "*", "|", "+"]), ("num", r.choice([0, 0, 1])), ("fn", "random", [("num", r.choice([2, 3, 10, 100]))]))
         if x < 0.65:
             ops = BINOPS if self.allow_div else [o for o in BINOPS if o not in "/%"]
             op = r.choice(ops)
@@ -232,7 +234,7 @@ class ProgGen:
         self.virtuals = []
         out_names = [s["name"] for s in sigs if s["typ"] in ("O", "B")]
         self.readable = [n for n in out_names if n.isidentifier() and n.isascii() and n not in KEYWORDS] \
-            if profile.get("reads", 0) > 0 else []
+            if (profile.get("reads", 0) > 0 or profile.get("shadow_out", 0) > 0) else []
         self.budget = profile.get("budget", 12)
         self.uses_reads = set()
         self.dead = []
@@ -355,7 +357,7 @@ class ProgGen:
                 out.append(("reset",))
             elif x < 0.9 and p.get("declare", 0) > 0 and len(self.virtuals) < 3:
                 name = self.fresh("V")
-                eg = ExprGen(r, vars_=[], outs=self.readable, allow_random=False, small=True, shift_small=True)
+                eg = ExprGen(r, vars_=[], outs=self.readable, allow_random=bool(p.get("declare_random")), small=True, shift_small=True)
                 e = eg.gen(2)
                 self.virtuals.append(name)
                 out.append(("declare", name, e))
